@@ -519,6 +519,8 @@ SWITCHES = {
     "plainish": {"extra": ["--no-color", "--no-timings", "--no-multiline"]},
     "color": {"extra": ["--color=always"]},
     "stop": {"stop": True, "extra": ["--no-color"]},
+    # control-flow switch inside Scenario.run: results keep arriving after a failed step
+    "cafs": {"cafs": True, "extra": ["--no-color"]},
 }
 
 
@@ -535,7 +537,8 @@ def programs(tier):
         # its normalized name, so a report that prints the normalized status no longer mirrors the model
         P.F((P.S(("pass", "pass"), ("wip",)), P.R((P.S(("pass", "pass")), P.O((("pass",),))), tags=("wip",)))),
     ]
-    outs = ("fail", "error", "pending", "undefined", "skip", "abort") if quick else P.NONPASS
+    # "convert": a typed parameter whose converter raises - the step is matched WITH an error (no arguments extracted)
+    outs = ("fail", "error", "pending", "undefined", "skip", "abort", "convert") if quick else P.NONPASS
     for b in bases:
         for nd, pr in P.deviations((b,), 1 if quick else 2, outcomes=outs, second=("undefined", "fail", "skip")):
             yield pr[0]
